@@ -3,7 +3,7 @@ import re
 import e2
 
 TIE = ["Nsq.Tie.Chan", "Nsq.Tie.ChanFunc", "Nsq.Tie.PubCounts"]
-PROPS = ["Nsq.Props.C13", "Nsq.Props.C13Pub"]
+PROPS = ["Nsq.Props.C13", "Nsq.Props.C13Pub", "Nsq.Props.C13Full"]
 
 
 def run(ctx):
@@ -21,7 +21,11 @@ def run(ctx):
         "quiescent moments only (the property says so): GetStats reads the counters one after the other",
         "channel backend writes succeed (go-diskqueue Put returns nil): a failing write in REQ / timeout / deferred scan loses the message "
         "and, on the REQ path, leaves the consumer's in_flight_count one too high — open finding chan-backend-write-fails (audit B3), "
-        "replayed by TestVerifE2PutFail with an injected write error",
+        "replayed by TestVerifE2PutFail with an injected write error; Lean: Model.ChanFault (putFail outcomes), "
+        "Props.C13Full.C13_full_false_put_fault / put_fault_skews_client",
+        "the property's formula AS WRITTEN (no sampled-out / ephemeral-drop term) is Props.C13Full.C13_full_partial: durable channel, no "
+        "sampling drop in the run; it is refuted with a sampling consumer (C13_full_false_sampling) and on a full #ephemeral queue "
+        "(C13_full_false_ephemeral) — channel_conservation carries the two extra terms",
     ]
     ctx.assumptions += [
         "producers (audit B26): pub_counts of one connection; the Go map c.pubCounts is one iteration order of an association list with "
